@@ -89,6 +89,8 @@ type Interp struct {
 	pendingGo  []pendingGo
 	initFailSeen map[string]bool
 	pathsSinceRestart int
+	fsFiles    map[string]*fsFile
+	openFiles  map[*Value]*openFile
 	pureCache  map[*ssa.Function]int8
 	specSteps  int
 }
@@ -128,6 +130,28 @@ func (it *Interp) store(p *Value, v Value) {
 	}
 	it.undo = append(it.undo, undoEnt{p: p, old: *p})
 	*p = v
+}
+
+// storeInPlace writes v to *p. Aggregates are copied field by field into the existing slots so
+// that pointers to fields/elements taken earlier (FieldAddr/IndexAddr) stay valid.
+func (it *Interp) storeInPlace(p *Value, v Value) {
+	switch rhs := v.(type) {
+	case Struct:
+		if lhs, ok := (*p).(Struct); ok && len(lhs) == len(rhs) {
+			for i := range lhs {
+				it.storeInPlace(&lhs[i], rhs[i])
+			}
+			return
+		}
+	case Array:
+		if lhs, ok := (*p).(Array); ok && len(lhs) == len(rhs) {
+			for i := range lhs {
+				it.storeInPlace(&lhs[i], rhs[i])
+			}
+			return
+		}
+	}
+	it.store(p, copyVal(v))
 }
 
 func (it *Interp) logUndo(f func()) {
@@ -180,7 +204,7 @@ func (it *Interp) storePtr(p Value, v Value) {
 		if p == nil {
 			panic(it.runtimePanic("nil", "invalid memory address or nil pointer dereference"))
 		}
-		it.store(p, copyVal(v))
+		it.storeInPlace(p, v)
 		return
 	case SymPtr:
 		vt, ok := v.(*Term)
@@ -203,7 +227,7 @@ func (it *Interp) storePtr(p Value, v Value) {
 		if len(p.sl) == 0 {
 			panic(engineErr("store through pointer to empty backing array"))
 		}
-		it.store(&p.sl[0], copyVal(v))
+		it.storeInPlace(&p.sl[0], v)
 		return
 	case Poison:
 		if it.tolerant {
